@@ -3,7 +3,9 @@ package harness
 // C12 — Repair re-assembles features fragmented by split/join, changes nothing else.
 
 import (
+	"bytes"
 	"fmt"
+	"github.com/go-gts/gts/seqio"
 	"sort"
 	"strings"
 	"testing"
@@ -17,6 +19,8 @@ type c12Case struct {
 	L     int    `json:"len"`
 	Cuts  []int  `json:"cuts,omitempty"`
 	Feats []Feat `json:"feats"`
+	Pre   []int  `json:"pre,omitempty"`  // cli: other records before the record in the stream handed to `gts repair` ...
+	Post  []int  `json:"post,omitempty"` // ... and after it
 }
 
 type c12Feature struct {
@@ -153,7 +157,82 @@ func c12Input(c c12Case) (gts.FeatureSlice, *Violation) {
 	return cp.Features(), nil
 }
 
+// c12Cli: `gts repair` on a stream of records. The command repairs the table of every record by itself: the output
+// holds the same records in order, each with the residues it had and the table gts.Repair gives for its own table.
+func c12Cli(c c12Case) *Violation {
+	initPool()
+	c.Mode = "program"
+	table, v := c12Input(c)
+	if v != nil {
+		v.Kind = "setup-" + v.Kind
+		return v
+	}
+	rec := func(name string, n, off int, ff gts.FeatureSlice) []byte {
+		f := seqio.GenBankFields{LocusName: name, Molecule: gts.DNA, Topology: gts.Linear, Division: "SYN", Date: seqio.Date{Year: 2020, Month: 1, Day: 2}, Definition: name, Accession: name, Version: name + ".1"}
+		return []byte(seqio.GenBank{Fields: f, Table: ff, Origin: seqio.NewOrigin(idBytes(off, n))}.String())
+	}
+	frag := func(a, b int, p5, p3 bool, label string) gts.Feature {
+		return gts.NewFeature("gene", gts.PartialRange(a, b, gts.Partial{Partial5: p5, Partial3: p3}), gts.Props{{"gene", label}})
+	}
+	others := [][]byte{
+		rec("OTHER0", c.L, 11, nil),
+		rec("OTHER1", c.L+5, 23, gts.FeatureSlice{frag(0, 2, false, true, "x"), frag(2, 4, true, false, "x")}),
+		rec("OTHER2", c.L, 31, gts.FeatureSlice{frag(1, 3, false, false, "y")}),
+		rec("OTHER3", 1, 3, nil),
+	}
+	var stream []byte
+	for _, k := range c.Pre {
+		stream = append(stream, others[mod(k, len(others))]...)
+	}
+	stream = append(stream, rec("MAIN", c.L, 0, table)...)
+	for _, k := range c.Post {
+		stream = append(stream, others[mod(k, len(others))]...)
+	}
+	what := fmt.Sprintf("gts repair on a stream (others %v before, %v after the record cut at %v)", c.Pre, c.Post, c.Cuts)
+	// what the command reads
+	var ins []gts.Sequence
+	{
+		sc := seqio.NewAutoScanner(bytes.NewReader(stream))
+		for sc.Scan() {
+			ins = append(ins, sc.Value())
+		}
+		if sc.Err() != nil || len(ins) != 1+len(c.Pre)+len(c.Post) {
+			skipCase("stream-unreadable")
+			return nil
+		}
+	}
+	env := newCliEnv()
+	defer env.remove()
+	res := env.run([]string{"repair", "--no-cache", "-F", "genbank"}, stream, false)
+	if res.Exit != 0 {
+		return viol("cli-exit", "%s: exit %d: %s", what, res.Exit, clipStr(res.Stderr, 300))
+	}
+	outs, errText := parseOutput(res.Out)
+	if errText != "" {
+		return viol("cli-output", "%s: output does not parse: %s", what, errText)
+	}
+	if len(outs) != len(ins) {
+		return viol("cli-records", "%s: %d records in, %d out", what, len(ins), len(outs))
+	}
+	for i, in := range ins {
+		var want []gts.Feature
+		if pi := guard(func() { want = gts.Repair(in.Features()) }); pi != nil {
+			return panicViolation("Repair", pi)
+		}
+		if !bytes.Equal(outs[i].bytes, in.Bytes()) {
+			return viol("cli-residues", "%s: record %d has residues %q, was %q", what, i, outs[i].bytes, in.Bytes())
+		}
+		if g, w := featuresString(outs[i].feats), featuresString(want); g != w {
+			return viol("cli-table", "%s: record %d comes out with the table %s; repairing its own table gives %s", what, i, g, w)
+		}
+	}
+	return nil
+}
+
 func c12Check(c c12Case) *Violation {
+	if c.Mode == "cli" {
+		return c12Cli(c)
+	}
 	table, v := c12Input(c)
 	if v != nil {
 		v.Kind = "setup-" + v.Kind
@@ -248,6 +327,9 @@ func c12Check(c c12Case) *Violation {
 func c12Classify(c c12Case) (bool, []string) {
 	labels := []string{"mode:" + c.Mode}
 	nt := false
+	if len(c.Pre)+len(c.Post) > 0 {
+		labels = append(labels, "several-records")
+	}
 	classes := map[string]int{}
 	for _, f := range c.Feats {
 		classes[f.Key+fmt.Sprint(f.Quals)]++
@@ -432,10 +514,26 @@ func c12Gen(t *rapid.T) c12Case {
 	return c
 }
 
+// c12GenCli: a cut-and-concatenated record among 0..4 other records, handed to `gts repair` as one stream.
+func c12GenCli(t *rapid.T) c12Case {
+	c := c12Gen(t)
+	if c.Mode == "table" {
+		c.Cuts = []int{rapid.IntRange(1, c.L-1).Draw(t, "cut")}
+	}
+	c.Mode = "cli"
+	c.Pre = rapid.SliceOfN(rapid.IntRange(0, 3), 0, 2).Draw(t, "pre")
+	c.Post = rapid.SliceOfN(rapid.IntRange(0, 3), 0, 2).Draw(t, "post")
+	return c
+}
+
 func TestC12(t *testing.T) {
 	st := newStats("C12")
 	defer st.flush()
 	rapidPart(t, c12Prop, st, "rapid", pick(30000, 200000), c12Gen)
+	if t.Failed() {
+		return
+	}
+	rapidPart(t, c12Prop, st, "rapid-cli", pick(200, 3000), c12GenCli)
 	if t.Failed() {
 		return
 	}
